@@ -1,7 +1,7 @@
 (* ===== C02 : every model-matrix column holds exactly the product its name denotes ===== *)
 From Coq Require Import List NArith ZArith QArith Qcanon Bool Arith.
 Import ListNotations.
-Require Import Mat MatLaws KronSolo.
+Require Import Mat MatLaws KronSolo MatConcat.
 Open Scope N_scope.
 
 (* The columns of a term are exactly: one column per choice of one encoded column from each factor; its name is the names
@@ -59,6 +59,17 @@ Proof. exact vmul_assoc. Qed.
 Print Assumptions C02_single_column_factor_pulls_out.
 Print Assumptions C02_cell_product_commutes.
 Print Assumptions C02_cell_product_associates.
+(* "term by term in formula order": when the labels produced are pairwise distinct, names and columns of the matrix are the plain
+   concatenation, over the terms in formula order and each term's scoped terms in recorded order, of the columns of C02_columns_are_products --
+   the dictionary the implementation collects them in neither reorders nor merges anything.  (Equal labels are the one case where the
+   dictionary matters: the later column replaces the value at the first position; the `build` stream includes such collisions.) *)
+Theorem C02_matrix_is_concatenation_in_formula_order : forall evs drop nrows fr terms,
+  NoDup (map fst (all_cols evs drop nrows fr terms)) ->
+  o_names (assemble evs drop nrows fr terms) = map fst (all_cols evs drop nrows fr terms) /\
+  o_cols (assemble evs drop nrows fr terms) = map snd (all_cols evs drop nrows fr terms).
+Proof. exact assemble_is_concatenation. Qed.
+
+Print Assumptions C02_matrix_is_concatenation_in_formula_order.
 Print Assumptions C02_columns_are_products.
 Print Assumptions C02_kronecker_enumeration.
 Print Assumptions C02_kronecker_width.
